@@ -19,7 +19,9 @@ LEVEL_TEXT = ("Theorems in Coq, for every event sequence / configuration / execu
               "the code as found). "
               "(3) k-way merge: output + unread rest is a permutation of the per-shard streams for any comparison, cut after "
               "the first error; sorted by CompareWithSlash when every per-shard stream is (uses C11's total-order theorems); "
-              "List is the plain union for every schedule, and with the caller's context (after the fix; refuted for the code "
+              "List is the plain union for every schedule: without cancellation the consumer receives exactly what every "
+              "shard streamed up to and including its first failure (the union when every stream ended with EOF, an error item "
+              "when some stream failed with whatever status after however many items), and with the caller's context (after the fix; refuted for the code "
               "as found) never sends on the closed result channel, closes it once and last, for every schedule and every "
               "moment of cancellation. (4) multi-shard comparison get: exactly one value and one close "
               "for every arrival order and every placement of errors (O-21 refuted for the code as found, fixed, old model "
@@ -49,7 +51,10 @@ RULE = ("batch: event lists (Call/Tick/Close) x configurations (write/read, ling
         "sends (ok/failed), responses, receive errors, per-request context cancellations, closure; merge: 0..8 per-shard streams over a '/'-rich key alphabet, "
         "errors anywhere, duplicates, unsorted streams, non-trivial = 2+ streams; mget: 1..6 shards, all comparison types, "
         "errors/not-found/OK mixes, secondary-index gets (answers carry primary and secondary key), answers whose primary or secondary key equals the search key, partial arrivals, every arrival order of one answer set for <= 4 shards, random callback order, observations per arrival, non-trivial = 2+ shards; "
-        "list: 1..5 shards with errors; listc (child process each): 1..4 gated shard streams, forwards, cancellation, "
+        "list / scan (through clientImpl.List / RangeScan): 1..5 shards whose streams end with EOF, an opaque error or any "
+        "gRPC status (Canceled, Unknown, DeadlineExceeded, Internal, Unavailable, oxia codes 100..108) after 0..k items, keys from "
+        "the comparer-stressing alphabet; wsend: write batch retry loop over the real stream wrapper, attempts = connection "
+        "failure / send failure / answered / stream broken in flight with every status code; listc (child process each): 1..4 gated shard streams, forwards, cancellation, "
         "give-ups; e2e: 30-120 operations per scenario over 1..4 shards, 3 lingers, 4 count limits, "
         "3 byte limits, injected request failures, close under load")
 LEGS = [
